@@ -7,10 +7,12 @@ package aztec
 // (compact, layers): the bit-producing stages are abstracted to "a fresh bit list of this length";
 // what their bits ARE is the business of the bounded round-trip stand-in (C03) and of C17.
 
+// (payloads whose high-level encoding exceeds 2^29 bits are outside the verified domain: the
+// BitList contracts stop at 2^30 bits)
 //@ func highlevelEncode
 //@   abstract
 //@   attr fresh_bitlist ?
-//@   ensures result != nil
+//@   ensures result != nil && 0 <= result.count && result.count <= 536870000
 
 // the stuffed length as a function of (bit list, word size): stuffBits is deterministic and only
 // reads its argument
@@ -19,10 +21,15 @@ package aztec
 //@ func stuffBits
 //@   abstract
 //@   attr fresh_bitlist ?
+//@   attr split wordSize 4 6 8 10 12
 //@   requires bits != nil && (wordSize == 4 || wordSize == 6 || wordSize == 8 || wordSize == 10 || wordSize == 12)
+//@   requires 0 <= bits.count && bits.count <= 536870000
 //@   ensures result != nil && result.count % wordSize == 0 && bits.count <= result.count
 //@   ensures result.count <= ((bits.count + wordSize - 2) / (wordSize - 1)) * wordSize
-//@   ensures result.count == azStuffLen(bits, wordSize)
+//@   ensures#assumed result.count == azStuffLen(bits, wordSize)
+//@   loop 1 invariant out != nil && fresh(out) && n == bits.count && mask == (1 << wordSize) - 2
+//@   loop 1 invariant out.count % wordSize == 0 && 0 <= i && i <= out.count && out.count * (wordSize - 1) <= i * wordSize
+//@   loop 1 invariant i < n + wordSize && (out.count == 0 || (out.count - wordSize) * (wordSize - 1) < n * wordSize)
 
 //@ func generateCheckWords
 //@   abstract
